@@ -53,7 +53,7 @@ def run_consumer(chk, prop, tier, seed, alias=None, only=None):
     configs = [c for c in consfam.CONFIGS if only is None or c["name"] in only]
     for ci, cfg in enumerate(configs):
         wd = tlc.workdir("%s-%s-cons-%d" % (prop, tier, ci))
-        depth = 8 if thorough else 7
+        depth = 11 if thorough else 8
         defs, lines = design_cfg(cfg, depth)
         res = tlc.model_check(wd, "MC_Consumer", "Consumer", defs, lines, timeout=1500).check()
         chk.add_model("Consumer[%s]" % cfg["name"], res, {k: cfg[k] for k in ("log", "block_n", "auto_t", "group", "max_attempts", "reset", "sync", "max_buf")},
